@@ -351,7 +351,7 @@ def _symbolic_for(interp, s, frame, state, space):
             arr_h[sid] = (shape, dt, fn)
         else:
             other_touched.append(sid)
-            if c.kind == "file":
+            if c.kind == "file" and c.data.get("mode") != "w":
                 # abstract read position of an open file handle: loop-carried integer
                 hp = sv.fresh_int(f"hpos{sid}_")
                 heap_h[sid] = Content("file", dict(c.data, pos=hp), c.meta)
